@@ -51,7 +51,7 @@ CT_CHART = "application/vnd.openxmlformats-officedocument.drawingml.chart+xml"
 RT_PACKAGE = R + "/package"
 MIX8 = dict(c07.MIX, empty=3, **{"url-raises": 0.3})
 CLEAN = {"plain": 50, "markup": 25, "space": 12, "lookalike": 12, "long": 1}
-DATES8 = c07.DATES + ["2020-01-01T12:00:00", "1900-03-01T06:00:00", "2024-03-19T00:00:00.000500", "2011-11-11T23:59:59.999999"]  # datetimes, with and without microseconds
+DATES8 = c07.DATES + ["2020-01-01T12:00:00", "1900-03-01T06:00:00", "2024-03-19T00:00:00.000500", "2011-11-11T23:59:59.999999", "2024-03-01T01:15:00+05:30", "2024-02-29T22:00:00-08:00"]  # datetimes, with and without microseconds, and time-zone-aware ones whose UTC day is another day
 ROLE = {"tx": "series-name", "cat": "category"}
 TYPES = {"category": ["BAR_CLUSTERED", "LINE_MARKERS", "AREA_STACKED", "PIE", "DOUGHNUT", "RADAR", "COLUMN_STACKED_100"], "xy": ["XY_SCATTER", "XY_SCATTER_SMOOTH"], "bubble": ["BUBBLE", "BUBBLE_THREE_D_EFFECT"]}
 WRITER = {"category": "CategoryWorkbookWriter", "xy": "XyWorkbookWriter", "bubble": "BubbleWorkbookWriter"}
